@@ -77,8 +77,18 @@ def label_of(s: str):
     return ("lbl", s)
 
 
-def run_case(ctx, c, timeout=None):
+class HardLimit(Exception):
+    pass
+
+
+def _alarm(signum, frame):
+    raise HardLimit()
+
+
+def run_case(ctx, c, timeout=None, hard_limit=None):
     """Returns the observation of one expand() call on a started page."""
+    import signal
+
     o = c["o"]
     hooks = []
 
@@ -95,6 +105,9 @@ def run_case(ctx, c, timeout=None):
     t0 = time.time()
     exc = None
     out = None
+    if hard_limit:
+        signal.signal(signal.SIGALRM, _alarm)
+        signal.alarm(int(hard_limit))
     try:
         out = ctx.expand(
             src,
@@ -107,8 +120,16 @@ def run_case(ctx, c, timeout=None):
             post_template_fn=pfn if o["pfn"] != "none" else None,
             timeout=timeout,
         )
+    except HardLimit:
+        exc = None
+        out = ""
+        t0 -= 10 * (hard_limit or 0)  # reported as far beyond the time bound
+        ctx.expand_stack[:] = before
     except Exception as e:  # noqa: BLE001
         exc = repr(e)
+    finally:
+        if hard_limit:
+            signal.alarm(0)
     return {
         "src": src,
         "out": out,
